@@ -69,15 +69,16 @@ pub fn load_configs_raw(config_files: Vec<PathBuf>, partial_emmyrcs: Option<Vec<
         let flatten_config = FlattenConfigObject::parse(first_config);
         flatten_config.to_emmyrc()
     } else {
-        let merge_config =
-            config_jsons
-                .into_iter()
-                .fold(Value::Object(Default::default()), |mut acc, item| {
-                    merge_values(&mut acc, item);
-                    acc
-                });
-        let flatten_config = FlattenConfigObject::parse(merge_config.clone());
-        flatten_config.to_emmyrc()
+        // Every config is brought to the nested form before merging. Merging the raw JSON
+        // would keep `"a.b"` from one file and `"a": {"b": ..}` from another as two separate
+        // entries, and the later file would no longer win.
+        config_jsons
+            .into_iter()
+            .map(|item| FlattenConfigObject::parse(item).to_emmyrc())
+            .fold(Value::Object(Default::default()), |mut acc, item| {
+                merge_values(&mut acc, item);
+                acc
+            })
     }
 }
 
